@@ -13,7 +13,7 @@
    in01 fzero  (0.0 is in [0,1]),  H_rt / H_cs  (Rust's shortest-round-trip Display/FromStr for
    non-negative finite f64: printing a number of [0,1] gives a non-empty string of digits and dots
    that reads back as the same number). *)
-From Nv Require Import Model.SstSent Proofs.EnumTotalP Proofs.EnumParseP.
+From Nv Require Import Model.SstSent Proofs.EnumTotalP Proofs.EnumParseP Proofs.DecP.
 
 (* ---------------- strings ---------------- *)
 Lemma diverge_starts a : forall b k, diverge a b = true -> starts a (b ++ k) = false.
@@ -1264,11 +1264,11 @@ Section CanonP.
   Qed.
 
   Theorem fmt_narsese_canon st v :
-    fmt_term E (match v with NTerm t => t | NSentence s => s_term s | NTask k => s_term (fst k) end) = render E st ->
+    fmt_term E (nv_term v) = render E st ->
     fmt_narsese F fshow E v = render_narsese E (canon_narsese F fshow kt ki st v).
   Proof.
     destruct ft_parts as (_ & Hki & _ & Hp & _).
-    destruct v as [t|s|[s b]]; cbn [fmt_narsese canon_narsese fst]; intros Ht.
+    destruct v as [t|s|[s b]]; cbn [fmt_narsese canon_narsese nv_term fst]; intros Ht.
     - unfold render_narsese, from_term, tail0, tail1, tail2, tail3. cbn. now rewrite app_nil_r.
     - unfold render_narsese. cbn [canon_sentence sn_lead sn_budget Sst.sp rep app]. now apply fmt_sentence_canon.
     - unfold render_narsese, fmt_task. cbn [canon_sentence sn_lead sn_budget Sst.sp rep app snd fst].
@@ -1279,4 +1279,140 @@ Section CanonP.
       destruct (Hp (s_punct s)) as (Hkw & Hne & _). congruence.
   Qed.
 End CanonP.
+(* ---------------- C01 at sentence / task level: format-then-parse ---------------- *)
+Section RoundTrip.
+  Variable F : Type.
+  Variable fshow : F -> str.          (* f64::to_string *)
+  Variable fread : str -> option F.   (* f64::from_str *)
+  Variable fzero : F.
+  Variable in01 : F -> bool.
+  Variable is_alnum : N -> bool.
+  Variable E : efmt.
+  Variables kt ki : nat.
+  Variable unamb : sterm -> str -> bool.
+  Hypothesis Hsok : sent_ok E = true.
+  Hypothesis Hft : fmt_tables_ok E kt ki = true.
+  Hypothesis H_empty : fread [] = None.
+  Hypothesis H_zero : in01 fzero = true.
+  (* Rust's shortest-round-trip Display / FromStr for non-negative finite f64 (numbers of [0,1]):
+     the printed text is a non-empty string of ASCII digits and dots, and reads back as the same number *)
+  Hypothesis H_rt : forall x, in01 x = true -> fread (fshow x) = Some x.
+  Hypothesis H_cs : forall x, in01 x = true -> fshow x <> [] /\ Forall (fun c => is_float_char c = true) (fshow x).
+  Hypothesis Hterm : TermParses F is_alnum E unamb.
+
+  Lemma read_canon l : forallb in01 l = true -> omap (read_num F fread in01) (map fshow l) = Some l.
+  Proof.
+    induction l as [|x l IH]; cbn [forallb map omap]; [reflexivity|].
+    rewrite andb_true_iff. intros [Hx Hl]. rewrite (IH Hl). unfold read_num.
+    destruct (H_cs x Hx) as [_ Hc]. apply forallb_Forall_iff in Hc. now rewrite Hc, (H_rt x Hx), Hx.
+  Qed.
+
+  Lemma obudget_canon b : forallb in01 (budget_list b) = true ->
+    obudget F fread in01 (canon_nums F fshow (budget_list b)) = Some b.
+  Proof.
+    intros H. unfold obudget, read_nums. cbn [canon_nums nl_texts]. rewrite map_length, (read_canon _ H).
+    destruct b; cbn [budget_list forallb] in H |- *; rewrite ?andb_true_iff in H; cbn [length Nat.leb mk_budget].
+    - reflexivity.
+    - destruct H as [-> _]. reflexivity.
+    - destruct H as (-> & -> & _). reflexivity.
+    - destruct H as (-> & -> & -> & _). reflexivity.
+  Qed.
+
+  Lemma otruth_canon t : forallb in01 (truth_list t) = true ->
+    otruth F fread in01 (canon_nums F fshow (truth_list t)) = Some t.
+  Proof.
+    intros H. unfold otruth, read_nums. cbn [canon_nums nl_texts]. rewrite map_length, (read_canon _ H).
+    destruct t; cbn [truth_list forallb] in H |- *; rewrite ?andb_true_iff in H; cbn [length Nat.leb mk_truth].
+    - reflexivity.
+    - destruct H as [-> _]. reflexivity.
+    - destruct H as (-> & -> & _). reflexivity.
+  Qed.
+
+  Lemma digit_int c : is_ascii_digit c = true -> is_int_char c = true.
+  Proof. intros H. unfold is_int_char. now rewrite H. Qed.
+
+  Lemma show_Z_int z : nonempty (show_Z z) && forallb is_int_char (show_Z z) = true.
+  Proof.
+    assert (Hn : forall n, nonempty (show_N n) && forallb is_int_char (show_N n) = true).
+    { intros n. destruct (show_N_digits n) as [Hne Hd]. apply andb_true_iff. split.
+      - destruct (show_N n); [congruence | reflexivity].
+      - apply forallb_Forall_iff. eapply Forall_impl; [|exact Hd]. apply digit_int. }
+    destruct z as [|p|p]; cbn [show_Z]; [reflexivity | apply Hn|].
+    specialize (Hn (Npos p)). apply andb_true_iff in Hn as [_ Hn]. cbn [nonempty forallb andb]. now rewrite Hn.
+  Qed.
+
+  Lemma ostamp_canon x : stamp_ok x = true ->
+    opt_read (canon_stamp kt x) (fun y => ostamp (snd y)) = Some (match x with Eternal => None | _ => Some x end).
+  Proof.
+    intros Hx. destruct (ft_parts E kt ki Hft) as (_ & _ & _ & _ & Hst).
+    destruct x as [| | | |z]; unfold canon_stamp; cbv zeta; cbn [opt_read snd]; [reflexivity | | | |]; unfold ostamp; cbn [ss_arm ss_int].
+    - destruct (Hst SAPast) as (-> & _). reflexivity.
+    - destruct (Hst SAPresent) as (-> & _). reflexivity.
+    - destruct (Hst SAFuture) as (-> & _). reflexivity.
+    - destruct (Hst SAFixed) as (-> & _). rewrite show_Z_int.
+      cbn [stamp_ok] in Hx. apply andb_true_iff in Hx as [H1 H2]. apply Z.leb_le in H1, H2.
+      now rewrite (read_isize_show z (conj H1 H2)).
+  Qed.
+
+  Lemma otruth_opt o : match o with Some t => forallb in01 (truth_list t) | None => true end = true ->
+    exists ot, opt_read (canon_truth F fshow kt o) (fun y => otruth F fread in01 (snd y)) = Some ot /\
+               unwrap_truth F ot = match o with Some t => t | None => TruthEmpty end.
+  Proof.
+    intros H. destruct o as [[|f|f c]|]; cbn [canon_truth opt_read snd].
+    - exists None. split; reflexivity.
+    - rewrite (otruth_canon (TruthSingle f) H). eexists. split; reflexivity.
+    - rewrite (otruth_canon (TruthDouble f c) H). eexists. split; reflexivity.
+    - exists None. split; reflexivity.
+  Qed.
+
+  Lemma odesugar_sentence bud ob st s :
+    sent_vals_ok F in01 s = true -> odesugar st = Some (s_term s) ->
+    opt_read bud (fun x => obudget F fread in01 (fst x)) = Some ob ->
+    odesugar_narsese F fread in01 (canon_sentence F fshow kt bud st s) =
+      Some (match ob with Some b => NTask (s, b) | None => NSentence s end).
+  Proof.
+    intros Hs Ht Hb. unfold sent_vals_ok in Hs. apply andb_true_iff in Hs as [Hst Htr].
+    destruct (ft_parts E kt ki Hft) as (_ & _ & _ & Hp & _). destruct (Hp (s_punct s)) as (_ & _ & Hpi).
+    destruct (otruth_opt _ Htr) as (ot & Hot & Hut).
+    unfold odesugar_narsese. cbn [canon_sentence sn_term sn_budget sn_punct sn_stamp sn_truth].
+    rewrite Ht, Hb, (ostamp_canon _ Hst), Hot. cbn [opt_read snd]. rewrite Hpi. f_equal. unfold classify. rewrite Hut.
+    assert (Hus : unwrap_stamp (match s_stamp s with Eternal => None | _ => Some (s_stamp s) end) = s_stamp s)
+      by (destruct (s_stamp s); reflexivity).
+    rewrite Hus. destruct s; cbn [from_punctuation s_punct s_term s_stamp s_truth]; destruct ob; reflexivity.
+  Qed.
+
+  Lemma odesugar_canon st v : vals_ok F in01 v = true -> odesugar st = Some (nv_term v) ->
+    odesugar_narsese F fread in01 (canon_narsese F fshow kt ki st v) = Some v.
+  Proof.
+    destruct v as [t|s|[s b]]; cbn [vals_ok nv_term canon_narsese fst]; intros Hv Ht.
+    - unfold odesugar_narsese. cbn. now rewrite Ht.
+    - now apply (odesugar_sentence None None).
+    - apply andb_true_iff in Hv as [Hs Hb]. apply (odesugar_sentence _ (Some b)); auto.
+      cbn [opt_read fst]. now rewrite (obudget_canon b Hb).
+  Qed.
+
+  (* the round trip, given the term-level facts about the term inside: the formatter prints the
+     canonical surface tree st of it, st means it, and the canonical input passes the back-off conditions *)
+  Theorem roundtrip_narsese st v :
+    vals_ok F in01 v = true ->
+    fmt_term E (nv_term v) = render E st -> odesugar st = Some (nv_term v) ->
+    sent_unamb F fread fzero in01 E unamb (canon_narsese F fshow kt ki st v) = true ->
+    exists st', parse_narsese F fread fzero in01 is_alnum E (fmt_narsese F fshow E v) = POk v st'.
+  Proof.
+    intros Hv Hf Ht Hu. rewrite (fmt_narsese_canon F fshow E kt ki Hft st v Hf).
+    apply (parse_narsese_render F fread fzero in01 is_alnum E Hsok H_empty H_zero unamb Hterm); [|exact Hu].
+    now apply odesugar_canon.
+  Qed.
+
+  (* C15: format(cast_to_task s) -- budget brackets with nothing between -- parses to a task with an empty budget *)
+  Corollary cast_to_task_parses st s :
+    sent_vals_ok F in01 s = true ->
+    fmt_term E (s_term s) = render E st -> odesugar st = Some (s_term s) ->
+    sent_unamb F fread fzero in01 E unamb (canon_narsese F fshow kt ki st (NTask (cast_to_task s))) = true ->
+    exists st', parse_narsese F fread fzero in01 is_alnum E (fmt_task F fshow E (cast_to_task s)) = POk (NTask (s, BudgetEmpty)) st'.
+  Proof.
+    intros Hs Hf Ht Hu. apply (roundtrip_narsese st (NTask (cast_to_task s))); auto.
+    cbn [vals_ok cast_to_task budget_list forallb]. now rewrite Hs.
+  Qed.
+End RoundTrip.
 (*MARK*)
